@@ -25,6 +25,7 @@ def run(rep):
     b10(rep, w)
     import c04_narrow
     c04_narrow.b4(rep, w)
+    c04_narrow.b4n(rep, w)
     b5(rep, w)
     c17.l2(rep, w)
     import c08
